@@ -30,7 +30,8 @@ ASSUMPTIONS = ["state lifetime is an interval: idle < MAX_TRANSMIT_WAIT must sti
                "later-block request may also be refused with 4.08"]
 EXPECTED_PROBES = ["continue_231", "final_block_handler", "gap_or_overlap", "unknown_transfer", "expired_transfer",
                    "wrong_payload_length", "block2_slice", "block2_beyond_end", "block2_without_rendering",
-                   "interleaved_keys", "lifetime_gray_zone", "restart_at_zero", "concurrent_requests", "assembly_in_front_of_a_site"]
+                   "interleaved_keys", "lifetime_gray_zone", "restart_at_zero", "concurrent_requests", "assembly_in_front_of_a_site",
+                   "representation_changes_between_block0_requests"]
 
 T = 93.0
 METHODS = {"GET": rc.GET, "PUT": rc.PUT, "POST": rc.POST, "FETCH": rc.FETCH}
@@ -199,9 +200,25 @@ def busy_neighbour(step, nb, first="A", path="r0"):
     return {"nclients": 2, "ops": ops}
 
 
+def gen_stale(r):
+    """A resource whose representation depends on the server's state, fetched block-wise; between two block-0 requests
+    the state changes (the representation shrinks below one block, grows, or rendering fails).  Later blocks are
+    slices of the rendering made for the LATEST block-0 request -- never of one before it."""
+    szx = r.choice([0, 2, 4, 6])
+    size = 1 << (szx + 4)
+    l1 = r.choice([2, 3, 5]) * size + r.choice([0, 1, size - 1])
+    second = r.choice(["small", "small", "raise", "grow", "same_size"])
+    l2 = {"small": r.choice([0, 1, 8, size]), "raise": 0, "grow": l1 + r.choice([1, size, 3 * size]), "same_size": l1}[second]
+    return {"stale": {"szx": szx, "l1": l1, "second": second, "l2": l2, "second_b2": r.choice([None, 0]),
+                      "k": r.choice([1, 1, 2]), "gap": r.choice([0.05, 1.0, 30.0]), "method": r.choice(["GET", "FETCH"])},
+            "nclients": 1, "ops": []}
+
+
 def gen(r, tier):
     if r.chance(0.12):
         return gen_concurrent(r)
+    if r.chance(0.05):
+        return gen_stale(r)
     if r.chance(0.05):
         return busy_neighbour(r.choice([0.3 * T, 0.6 * T, 0.9 * T, T - 0.5]), r.randint(3, 7), r.choice(["A", "B"]), r.choice(["r0", "r1"]))
     nclients = r.choice([1, 2, 3])
@@ -447,9 +464,106 @@ def execute_concurrent(sim, scn):
         sim.anomaly("loop-exception:%s" % en, "%s %s" % (m, es))
 
 
+def execute_stale(sim, scn):
+    import aiocoap.resource as resource
+    from aiocoap import Message
+
+    loop = sim.loop
+    st = scn["stale"]
+    state = {"len": st["l1"], "fail": False}
+    renders = []
+
+    class Stateful(resource.Resource):
+        async def _do(self, request):
+            rid = len(renders) + 1
+            renders.append({"rid": rid, "t": loop.now, "len": state["len"], "failed": state["fail"]})
+            sim.log("app", "invoke", rid, state["len"])
+            if state["fail"]:
+                raise RuntimeError("rendering fails")
+            return Message(payload=rendering(rid, state["len"]))
+
+        render_get = render_fetch = _do
+
+    async def setup():
+        site = resource.Site()
+        site.add_resource(["st"], Stateful())
+        return await sim.server(site, common.SERVER_IP)
+
+    loop.run_until_complete(setup())
+    srv = (common.SERVER_IP, 5683)
+    answers = {}
+
+    class C(ScriptedEndpoint):
+        def handle(self, msg, src, data):
+            if msg is not None and msg["code"] >= 64:
+                answers.setdefault(msg["token"], msg)
+                if msg["type"] == rc.CON:
+                    self.send(src, msg={"type": rc.ACK, "code": 0, "mid": msg["mid"], "token": b"", "options": [], "payload": b""})
+
+    c = C(sim, common.PEER_IPS[0], 5683)
+    code = METHODS[st["method"]]
+    body_ = b"q" if st["method"] == "FETCH" else b""
+
+    def ask(j, b2, t):
+        opts = [(rc.URI_PATH, b"st")] + ([(rc.BLOCK2, rc.block_bytes(b2, False, st["szx"]))] if b2 is not None else [])
+        c.send(srv, msg={"type": rc.CON, "code": code, "mid": 0x7300 + j, "token": bytes([0xE0, j]), "options": opts, "payload": body_},
+               fate=["at", t])
+
+    def change():
+        state["len"] = st["l2"]
+        state["fail"] = st["second"] == "raise"
+    ask(0, 0, 0.0)
+    loop.at(st["gap"] / 2, change)
+    ask(1, st["second_b2"], st["gap"])
+    ask(2, st["k"], st["gap"] + 0.05)
+    sim.run()
+    sim.nontrivial = True
+    sim.probe("representation_changes_between_block0_requests")
+    size = 1 << (st["szx"] + 4)
+    a = answers.get(bytes([0xE0, 2]))
+    ident = dict(st, renders=[[x["rid"], x["len"], x["failed"]] for x in renders])
+    if a is None:
+        sim.violation("C06/request-not-answered", ident)
+        return
+    lo = st["k"] * size
+    latest = renders[-1] if renders else None
+    codestr = rc.code_str(a["code"])
+    if len(renders) != 2:
+        sim.violation("C06/handler-invocations", dict(ident, n=len(renders)))
+    elif latest["failed"]:
+        # the latest block-0 request produced no rendering at all
+        if a["code"] not in (rc.REQUEST_ENTITY_INCOMPLETE, rc.BAD_REQUEST):
+            sim.violation("C06/block2-slice-of-superseded-rendering", dict(ident, answered=codestr, payload=a["payload"][:24].hex()))
+    elif lo >= latest["len"] and not (lo == 0 and latest["len"] == 0):
+        if a["code"] not in (rc.BAD_REQUEST, rc.REQUEST_ENTITY_INCOMPLETE):
+            sim.violation("C06/block2-slice-of-superseded-rendering" if a["code"] == rc.CONTENT else "C06/block2-beyond-end-not-400",
+                          dict(ident, answered=codestr, payload=a["payload"][:24].hex()))
+        else:
+            sim.probe("block2_beyond_end")
+    else:
+        want = rendering(latest["rid"], latest["len"])[lo:lo + size]
+        # (a rendering that fits one block is not kept by the server: 4.08 is what the statement allows then)
+        kept = latest["len"] > (1124 if st["second_b2"] is None else size)  # (1124: the library's limit for one datagram)
+        if a["code"] == rc.CONTENT:
+            if a["payload"] != want:
+                old = rendering(renders[0]["rid"], renders[0]["len"])[lo:lo + size]
+                sim.violation("C06/block2-slice-of-superseded-rendering" if a["payload"] == old else "C06/block2-not-exact-slice",
+                              dict(ident, answered=codestr, payload=a["payload"][:24].hex(), expected=want[:24].hex()))
+            else:
+                sim.probe("block2_slice")
+        elif a["code"] == rc.REQUEST_ENTITY_INCOMPLETE and not kept:
+            sim.probe("block2_without_rendering")
+        else:
+            sim.violation("C06/block2-not-exact-slice", dict(ident, answered=codestr))
+    for (t, m, en, es) in sim.loop_exceptions():
+        sim.anomaly("loop-exception:%s" % en, "%s %s" % (m, es))
+
+
 def execute(sim, scn):
     if scn.get("concurrent"):
         return execute_concurrent(sim, scn)
+    if scn.get("stale"):
+        return execute_stale(sim, scn)
     import aiocoap.resource as resource
     from aiocoap import Message
 
